@@ -622,14 +622,14 @@ def main():
     gen_control()
     import gen_solver_code
     gen_solver_code.gen(sys.modules[__name__], lost)
-    import gen_main_code
-    gen_main_code.gen(sys.modules[__name__], lost)
     import gen_run_code
     gen_run_code.gen(sys.modules[__name__], lost)
     import gen_init_code
     gen_init_code.gen(sys.modules[__name__], lost)
     import gen_graph_code
     gen_graph_code.gen(sys.modules[__name__], lost)
+    import gen_main_code      # after run and graph: `mainCode` is built from their definitions
+    gen_main_code.gen(sys.modules[__name__], lost)
     import gen_utils_code
     gen_utils_code.gen(sys.modules[__name__], lost)
     import gen_cli_code
